@@ -253,6 +253,26 @@ func ops() []opdef {
 		client := lime.NewClient(unreachable(), &lime.EnvelopeMux{})
 		return func(ctx context.Context) error { return client.SendMessage(ctx, lib.Msg("m", "x")) }
 	})
+	add("inproc/dial+client.EstablishSession/listener-not-accepting", 0, func(x *harness.X) func(context.Context) error {
+		// the listener listens but nobody accepts; one earlier connection is already waiting
+		addr := lime.InProcessAddr("c15-busy")
+		l := lime.NewInProcessTransportListener(addr)
+		if err := l.Listen(context.Background(), addr); err != nil {
+			panic(err)
+		}
+		if _, err := lime.DialInProcess(addr, 1); err != nil {
+			panic(err)
+		}
+		// what Client.buildChannel does: dial, then establish over the new transport
+		return func(ctx context.Context) error {
+			t, err := lime.DialInProcess(addr, 1)
+			if err != nil {
+				return err
+			}
+			_, err = lib.ClientEstablishGuest(ctx, lime.NewClientChannel(t, 1), "alice")
+			return err
+		}
+	})
 	add("client.SendMessage/server-gone-listener-retrying", 0, func(x *harness.X) func(context.Context) error {
 		// established once; then the server goes away for good and the client's own listener
 		// keeps trying to rebuild the channel in the background
